@@ -30,7 +30,8 @@ class Sec:
 
 class Seg:
     def __init__(self, type=1, flags=4, offset=0, vaddr=0, paddr=None, filesz=0, memsz=None,
-                 align=1, sec=None):
+                 align=1, sec=None, exact_memsz=False):
+        self.exact_memsz = exact_memsz      # keep a memory size smaller than the file size (non-loadable segments of core files)
         self.type, self.flags, self.offset, self.vaddr = type, flags, offset, vaddr
         self.paddr = vaddr if paddr is None else paddr
         self.filesz = filesz
@@ -168,7 +169,7 @@ def build(cls=64, le=True, machine=62, etype=1, osabi=0, abiversion=0, entry=0, 
             s = secs[byname[g.sec]]
             g.offset = s.offset
             g.filesz = 0 if s.type == 8 else len(s.data)
-            if g.memsz is None or g.memsz < g.filesz:
+            if g.memsz is None or (g.memsz < g.filesz and not g.exact_memsz):
                 g.memsz = g.filesz
     shdrs = []
     for s in secs:
